@@ -709,7 +709,7 @@ def mk_des(rng, pb, px):
 
 
 def mk_tdea(rng, pb, px):
-    return pb.obj({"kind": "TDEA", "key": B(rbytes(rng, rng.choice([8, 16, 24])))}), _cinfo(rng, 8)
+    return pb.obj({"kind": "TDEA", "key": B(rbytes(rng, rng.choice([8, 16])))}), _cinfo(rng, 8)
 
 
 def mk_serpent(rng, pb, px):
@@ -1088,3 +1088,49 @@ class C10(Machine):
 
     def totals(self):
         return {"bigrams_total": len(_BI), "trigrams_total": len(_TRI)}
+
+    # -----------------------------------------------------------------------------------------
+    def explain_nullpad_dec(self, plan, v):
+        """Known finding C10/nullpadding-dec: a mode object built with Nullpadding strips, in
+        dec(), the number of pad bits its *previous enc()* added.  True iff the minimised plan
+        is 'enc ... enc, dec' on one such object without faults and the observed outcome is
+        exactly what that defect predicts; anything else is reported as a new violation."""
+        steps = plan["steps"]
+        if len(steps) < 2 or any(s.get("fault") for s in steps):
+            return False
+        oi = steps[-1].get("obj")
+        rec = plan["objects"][oi]
+        if rec.get("kind") not in ("ECB", "CBC") or rec.get("pad") != "Nullpadding":
+            return False
+        if any(s.get("obj") != oi or s.get("k") != "call" for s in steps):
+            return False
+        if steps[-1].get("name") != "dec" or any(s.get("name") != "enc" for s in steps[:-1]):
+            return False
+        if steps[-1]["id"] != v["step"]:
+            return False
+        m = steps[-2]["args"][0]
+        if not (isinstance(m, dict) and "b" in m):
+            return False
+        n = len(m["b"]) // 2
+        cip = plan["objects"][rec["cipher"]["obj"]]
+        while cip.get("kind") == "proxy":
+            cip = plan["objects"][cip["inner"]["obj"]]
+        L = {"AES": 16, "DES": 8, "TDEA": 8, "Serpent": 16}.get(cip["kind"]) or cip.get("blocksize", 0) // 8
+        if not L:
+            return False
+        r = n % L
+        q = 8 * L if n == 0 else (0 if r == 0 else 8 * (L - r))
+        fresh, got = v["detail"]["fresh"], v["detail"]["got"]
+        if fresh[0] != "ok" or not isinstance(fresh[1], dict) or "b" not in fresh[1]:
+            return False
+        D = bytes.fromhex(fresh[1]["b"])
+        last = D[-L:]
+        size = 8 * len(last) - q
+        if size < 0:
+            return got == ["exc", "ValueError"]
+        nb = (size + 7) // 8
+        keep = bytearray(last[:nb])
+        if size % 8 and nb:
+            keep[-1] &= (0xFF << (8 - size % 8)) & 0xFF
+        pred = D[:-L] + bytes(keep) if len(D) >= L else bytes(keep)
+        return got == ["ok", {"b": pred.hex()}]
